@@ -418,8 +418,10 @@ class Cell(Numbered_MCNP_Object):
             raise TypeError("Atom density must be a number.")
         elif density < 0:
             raise ValueError("Atom density must be a positive number.")
+        # convert first: float() can fail (e.g. OverflowError) and must not leave the unit flag switched
+        density = float(density)
         self._is_atom_dens = True
-        self._density = float(density)
+        self._density = density
 
     @atom_density.deleter
     def atom_density(self):
@@ -443,8 +445,10 @@ class Cell(Numbered_MCNP_Object):
             raise TypeError("Mass density must be a number.")
         elif density < 0:
             raise ValueError("Mass density must be a positive number.")
+        # convert first: float() can fail (e.g. OverflowError) and must not leave the unit flag switched
+        density = float(density)
         self._is_atom_dens = False
-        self._density = float(density)
+        self._density = density
 
     @mass_density.deleter
     def mass_density(self):
